@@ -292,6 +292,39 @@ func runC09(w *World, r *Report) {
 		}
 	}
 
+	r.Rule("C09.component-methods-read-only", "the run-time methods of the module's own components and helpers (exported pointer-receiver methods taking a context.Context, with the same-receiver methods they call) store nothing into their receiver unless a mutex of the receiver is held: one component instance inside a compiled graph serves every concurrent run", 10)
+	{
+		// package compose is covered by C09.read-only over the run path; its context-taking builder methods (Compile) write by design
+		cl := runMethodClosure(w, "schema", "internal", "flow", "callbacks", "components", "utils")
+		var roots []*ssa.Function
+		for fn := range cl {
+			roots = append(roots, fn)
+		}
+		sort.Slice(roots, func(i, j int) bool { return roots[i].String() < roots[j].String() })
+		for _, root := range roots {
+			bad := 0
+			for _, f := range cl[root] {
+				for _, rw := range receiverWrites(f) {
+					owner := namedOf(f.Params[0].Type())
+					held := false
+					if owner != nil {
+						if mu := mutexStructs(w, w.relPkg(fnPkg(f).Path()))[owner]; mu != nil {
+							held = heldAt(f, mu, false)[rw.in]
+						}
+					}
+					if held {
+						continue
+					}
+					bad++
+					r.Fail("C09.component-methods-read-only", fmt.Sprintf("%s: %s of receiver field %s in %s", w.fname(root), rw.kind, rw.field.Name(), w.fname(f)), rw.in.Pos(), "a run-time method writes a field of the object it is called on without a lock: two concurrent runs of the compiled graph share that object — a data race (lazy caches, counters, last-request fields), and with append-built caches a torn or doubled value")
+				}
+			}
+			if bad == 0 {
+				r.OK("C09.component-methods-read-only", fmt.Sprintf("%s (+%d same-receiver callees)", w.fname(root), len(cl[root])-1), root.Pos(), "no unlocked store into the receiver")
+			}
+		}
+	}
+
 	r.Rule("C09.reslice-append", "no append onto a re-slice (x[:k]) of a parameter slice or of a slice held in a field of a shared object, except the owner's delete-in-place stored back into the same field", 1)
 	ruleResliceAppend(w, r, "C09.reslice-append", "compose", "schema", "internal", "flow", "callbacks", "components", "utils")
 
